@@ -744,18 +744,14 @@ func (vfs *OrefaFS) RemoveAll(path string) error {
 		return nil
 	}
 
-	if child.mode.IsDir() {
-		vfs.removeAll(absPath, child)
-	}
-
-	child.remove()
+	vfs.removeAll(absPath, child)
 
 	delete(parent.children, fileName)
-	delete(vfs.nodes, absPath)
 
 	return nil
 }
 
+// removeAll releases the node rootNode named absPath and all the nodes below it, and removes them from the index.
 func (vfs *OrefaFS) removeAll(absPath string, rootNode *node) {
 	if rootNode.mode.IsDir() {
 		for fileName, nd := range rootNode.children {
